@@ -7,7 +7,13 @@ es = json.load(open('/root/.vp/EVIDENCE.schema.json'))
 bad = 0
 for c in m['checks']:
     try:
-        jsonschema.validate(json.load(open(c['evidence_file'])), es)
+        ev = json.load(open(c['evidence_file']))
+        jsonschema.validate(ev, es)
+        cov = ev['coverage']
+        if ev['level'] == 'proof' and cov.get('obligations') != cov.get('discharged'):
+            raise Exception('proof: discharged %s != obligations %s' % (cov.get('discharged'), cov.get('obligations')))
+        if ev.get('violations'):
+            raise Exception('evidence records %s violations' % ev['violations'])
     except Exception as e:
         bad += 1; print('BAD', c['evidence_file'], str(e)[:300])
 print('manifest valid; %d checks; %d bad evidence' % (len(m['checks']), bad))
